@@ -120,12 +120,46 @@ class Escapes:
                 if nid is not None and nid not in live:
                     continue        # dead code (e.g. after an if/else whose arms all return)
                 if n.exc is None:
-                    # re-raise of what the handler caught
+                    # re-raise of what the handler caught: exactly what the protected statements let out and this handler takes -
+                    # the handler adds no exception of its own (what user code raises inside is the hook's contract, see R08.2)
                     h = next((a for a in _anc(n) if isinstance(a, ast.ExceptHandler)), None)
+                    t = parent(h) if h is not None else None
                     names = handler_names(h) if h is not None else None
-                    for c in (names or ['Exception']):
-                        if not self.caught(c, h if h is not None else n, fi):
-                            out.setdefault((c, fi.key, n.lineno), Origin(c, fi, n))
+                    if not isinstance(t, ast.Try):
+                        continue
+
+                    def taken(cls_):
+                        if names is not None and not any(self.H.is_sub(cls_, x) for x in names):
+                            return False
+                        for h2 in t.handlers:           # an earlier handler of the same try takes it first
+                            if h2 is h:
+                                break
+                            n2 = handler_names(h2)
+                            if n2 is None or any(self.H.is_sub(cls_, x) for x in n2):
+                                return False
+                        return True
+
+                    def inner_caught(cls_, x):
+                        for t2 in enclosing_try_bodies(x, fi.node):
+                            if t2 is t:
+                                return False
+                            for h2 in t2.handlers:
+                                n2 = handler_names(h2)
+                                if n2 is None or any(self.H.is_sub(cls_, y) for y in n2):
+                                    return True
+                        return False
+                    for st in t.body:
+                        for x in ast.walk(st):
+                            if isinstance(x, ast.Raise) and x.exc is not None:
+                                e2 = x.exc.func if isinstance(x.exc, ast.Call) else x.exc
+                                c2 = (dotted_name(e2) or norm(e2)).split('.')[-1]
+                                if taken(c2) and not inner_caught(c2, x) and not self.caught(c2, h, fi):
+                                    out.setdefault((c2, fi.key, x.lineno), Origin(c2, fi, x))
+                            elif isinstance(x, ast.Call):
+                                for g in self.resolve(fi, x):
+                                    for k, o in self.esc.get(g.key, {}).items():
+                                        if taken(k[0]) and not inner_caught(k[0], x) and not self.caught(k[0], h, fi) and k not in out:
+                                            out[k] = Origin(k[0], o.fi, o.node, (fi.qual + ':%d' % x.lineno,) + o.chain)
                     continue
                 e = n.exc.func if isinstance(n.exc, ast.Call) else n.exc
                 c = (dotted_name(e) or norm(e)).split('.')[-1]
